@@ -37,6 +37,11 @@ type eventState struct {
 func (e *Exec) evOn() bool { return e.ev != nil }
 
 func (e *Exec) evAdd(ev Event) {
+	// operations on objects that are not reachable from the Server value
+	// (e.g. the per-session cache mutexes) are local to the thread: no event
+	if ev.Obj == "other" && ev.Op != "mark" && ev.Op != "spawn" {
+		return
+	}
 	ev.Where = e.where()
 	e.ev.log = append(e.ev.log, ev)
 }
